@@ -171,16 +171,17 @@ theorem wrapStep_cases2 {box : Bound α} {input : List (List (Pt α))} {o : Int}
     (i < 2 * n ∧ ∃ ep, st.points[i % n]? = some ep ∧
       ((x = .inr (st, i+1) ∧ (ep.used = true ∨ (ep.start = false ∧ st.current ≠ []) ∨ (ep.start = true ∧ st.current = []))) ∨
        (ep.used = false ∧ ep.start = false ∧ st.current = [] ∧ ∃ piece, input[ep.index]? = some piece ∧
-          x = .inr ({ st with current := piece, points := st.points.set (i % n) (usedT ep) }, i+1)) ∨
+          x = .inr ({ st with current := piece, first := ep.index, points := st.points.set (i % n) (usedT ep) }, i+1)) ∨
        (ep.used = false ∧ ep.start = true ∧ ∃ cf cl rTail, st.current.head? = some cf ∧ st.current.getLast? = some cl ∧
           ((ep.point = cl ∧ rTail = []) ∨
            (ep.point ≠ cl ∧ ∃ r, aroundBound box [ep.point, cl] o = .ok r ∧ rTail = r.drop 2)) ∧
-          ((ep.point = cf ∧ x = .inr ({ points := st.points.set (i % n) (usedT ep), current := [],
-                                        result := st.result ++ [[st.current ++ rTail]] }, 0)) ∨
-           (ep.point ≠ cf ∧ ∃ piece, input[ep.index]? = some piece ∧ ep.otherEnd < st.points.length ∧
+          ((ep.index = st.first ∧ ep.point = cf ∧
+              x = .inr ({ points := st.points.set (i % n) (usedT ep), current := [],
+                          result := st.result ++ [[st.current ++ rTail]], first := st.first }, 0)) ∨
+           ((ep.index ≠ st.first ∨ ep.point ≠ cf) ∧ ∃ piece, input[ep.index]? = some piece ∧ ep.otherEnd < st.points.length ∧
               x = .inr ({ points := (st.points.set (i % n) (usedT ep)).modify ep.otherEnd usedT,
                           current := st.current ++ (if rTail.isEmpty then [] else rTail.dropLast) ++ piece,
-                          result := st.result }, ep.otherEnd + 1)))))) := by
+                          result := st.result, first := st.first }, ep.otherEnd + 1)))))) := by
   rw [wrapStep] at h
   by_cases h1 : i ≥ 2 * n
   · rw [if_pos h1] at h
@@ -236,12 +237,16 @@ theorem wrapStep_cases2 {box : Bound α} {input : List (List (Pt α))} {o : Int}
                     right
                     obtain ⟨r, hr1, hr2⟩ := resBind_ok_invW hr
                     exact ⟨fun hh => h8 ((ptEq_iff_C _ _).2 hh), r, hr1, by cases hr2; rfl⟩
-                · by_cases h8 : Core.ptEq ep.point cf = true
+                · by_cases h8 : (ep.index == st.first && Core.ptEq ep.point cf) = true
                   · rw [if_pos h8] at h
-                    left; exact ⟨(ptEq_iff_C _ _).1 h8, by cases h; rfl⟩
+                    have h8' := Bool.and_eq_true_iff.1 h8
+                    left; exact ⟨by simpa using h8'.1, (ptEq_iff_C _ _).1 h8'.2, by cases h; rfl⟩
                   · rw [if_neg h8] at h
                     right
-                    refine ⟨fun hh => h8 ((ptEq_iff_C _ _).2 hh), ?_⟩
+                    refine ⟨?_, ?_⟩
+                    · by_cases hi : ep.index = st.first
+                      · right; intro hh; exact h8 (Bool.and_eq_true_iff.2 ⟨by simpa using hi, (ptEq_iff_C _ _).2 hh⟩)
+                      · left; exact hi
                     cases h9 : input[ep.index]? with
                     | none => rw [h9] at h; cases h
                     | some piece =>
@@ -534,7 +539,8 @@ def FlagsN (input : List (List (Pt α))) (n : Nat) (st : WrapSt α) (i : Nat) : 
     st.current.head? = some cf ∧ input[m0]? = some ls0 ∧ ls0.head? = some cf ∧ i ≤ k0 ∧ k0 < 2 * n ∧
     st.points[k0 % n]? = some e0 ∧ e0.index = m0 ∧ e0.start = true ∧ e0.used = false ∧
     (∀ (k : Nat) (e : Endpoint α), st.points[k]? = some e → e.index = m0 → e.start = false → e.used = true) ∧
-    (∀ (k : Nat) (e : Endpoint α), st.points[k]? = some e → e.index ≠ m0 → PartnerSame st.points e)
+    (∀ (k : Nat) (e : Endpoint α), st.points[k]? = some e → e.index ≠ m0 → PartnerSame st.points e) ∧
+    st.first = m0
 
 structure Inv (box : Bound α) (input : List (List (Pt α))) (n : Nat) (st : WrapSt α) (i : Nat) : Prop where
   stat : Static input st.points
@@ -548,7 +554,7 @@ theorem Inv_skip {box : Bound α} {input : List (List (Pt α))} {n : Nat} {st : 
     (hr : ep.used = true ∨ (ep.start = false ∧ st.current ≠ []) ∨ (ep.start = true ∧ st.current = [])) :
     Inv box input n st (i+1) := by
   refine ⟨hI.stat, hI.hn, hI.bdry, hI.edges, ?_⟩
-  rcases hI.flags with ⟨hc, hps, hs1⟩ | ⟨m0, k0, e0, cf, ls0, hcf, hls0, hh0, hik, hk2, hk0, hm0, hst0, hu0, hend, hoth⟩
+  rcases hI.flags with ⟨hc, hps, hs1⟩ | ⟨m0, k0, e0, cf, ls0, hcf, hls0, hh0, hik, hk2, hk0, hm0, hst0, hu0, hend, hoth, hfst⟩
   · left
     refine ⟨hc, hps, ?_⟩
     intro k hk e he hs
@@ -560,7 +566,7 @@ theorem Inv_skip {box : Bound α} {input : List (List (Pt α))} {n : Nat} {st : 
       · exact absurd hc h
       · rw [hs] at h; cases h
   · right
-    refine ⟨m0, k0, e0, cf, ls0, hcf, hls0, hh0, ?_, hk2, hk0, hm0, hst0, hu0, hend, hoth⟩
+    refine ⟨m0, k0, e0, cf, ls0, hcf, hls0, hh0, ?_, hk2, hk0, hm0, hst0, hu0, hend, hoth, hfst⟩
     rcases Nat.lt_or_eq_of_le hik with h | rfl
     · exact h
     · exfalso
@@ -574,7 +580,7 @@ theorem Inv_take {box : Bound α} {input : List (List (Pt α))} (hp : ∀ ls ∈
     {n : Nat} {st : WrapSt α} {i : Nat} {ep : Endpoint α} {piece : List (Pt α)}
     (hI : Inv box input n st i) (hi : i < 2 * n) (hep : st.points[i % n]? = some ep)
     (hu : ep.used = false) (hs : ep.start = false) (hcur : st.current = []) (hpiece : input[ep.index]? = some piece) :
-    Inv box input n { st with current := piece, points := st.points.set (i % n) (usedT ep) } (i+1) := by
+    Inv box input n { st with current := piece, first := ep.index, points := st.points.set (i % n) (usedT ep) } (i+1) := by
   obtain ⟨hstat, hn, hbd, ⟨U, Wk, hE⟩, hfl⟩ := hI
   rw [set_eq_markL hep]
   have hflE : FlagsE n st i := by
@@ -639,7 +645,7 @@ theorem Inv_take {box : Bound α} {input : List (List (Pt α))} (hp : ∀ ls ∈
       | cons x _ => exact ⟨x, rfl⟩
     have hqn : ep.otherEnd < n := by rw [← hn]; exact hq_lt
     refine ⟨ep.index, (if i + 1 ≤ ep.otherEnd then ep.otherEnd else ep.otherEnd + n), mkU [i % n] ep.otherEnd e', cf,
-      piece, hcf, hpiece, hcf, ?_, ?_, ?_, hq_idx, ?_, ?_, ?_, ?_⟩
+      piece, hcf, hpiece, hcf, ?_, ?_, ?_, hq_idx, ?_, ?_, ?_, ?_, rfl⟩
     · split_ifs <;> omega
     · split_ifs <;> omega
     · have : (if i + 1 ≤ ep.otherEnd then ep.otherEnd else ep.otherEnd + n) % n = ep.otherEnd := by
@@ -671,27 +677,27 @@ theorem resEdges_snoc (res : List (List (List (Pt α)))) (ring : List (Pt α)) :
   unfold ResEdges; simp
 
 theorem Inv_complete {box : Bound α} (hb : BoxOK box) {input : List (List (Pt α))} {o : Int} (ho : o = CW ∨ o = CCW)
-    (hp : ∀ ls ∈ input, PieceOK box ls) (hnd : (input.map List.head?).Nodup)
+    (hp : ∀ ls ∈ input, PieceOK box ls)
     {n : Nat} {st : WrapSt α} {i : Nat} {ep : Endpoint α} {cf cl : Pt α} {rTail : List (Pt α)}
-    (hI : Inv box input n st i) (hep : st.points[i % n]? = some ep)
+    (hI : Inv box input n st i) (hep : st.points[i % n]? = some ep) (hfirst : ep.index = st.first)
     (hu : ep.used = false) (hs : ep.start = true)
     (hcf : st.current.head? = some cf) (hcl : st.current.getLast? = some cl)
     (hrt : (ep.point = cl ∧ rTail = []) ∨
            (ep.point ≠ cl ∧ ∃ r, aroundBound box [ep.point, cl] o = .ok r ∧ rTail = r.drop 2))
     (hpf : ep.point = cf) :
     Inv box input n { points := st.points.set (i % n) (usedT ep), current := [],
-                      result := st.result ++ [[st.current ++ rTail]] } 0 := by
+                      result := st.result ++ [[st.current ++ rTail]], first := st.first } 0 := by
   obtain ⟨hstat, hn, hbd, ⟨U, Wk, hE⟩, hfl⟩ := hI
   rw [set_eq_markL hep]
   have hflN : FlagsN input n st i := by
     rcases hfl with ⟨h, _⟩ | h
     · rw [h] at hcf; cases hcf
     · exact h
-  obtain ⟨m0, k0, e0, cf', ls0, hcf', hls0, hh0, hik, hk2, hk0, hm0, hst0, hu0, hend, hoth⟩ := hflN
+  obtain ⟨m0, k0, e0, cf', ls0, hcf', hls0, hh0, hik, hk2, hk0, hm0, hst0, hu0, hend, hoth, hfst⟩ := hflN
   rw [hcf] at hcf'; cases hcf'
   obtain ⟨ls, hls, hif⟩ := hstat.piece _ ep hep
   rw [if_pos hs] at hif
-  have hidx : ep.index = m0 := head_inj hnd hls hls0 (by rw [hif, hh0, hpf])
+  have hidx : ep.index = m0 := hfirst.trans hfst
   have hpb : OnBoundary box ep.point := (hp ls (List.mem_of_getElem? hls)).2.1 _ hif
   have hclb := hbd cl hcl
   obtain ⟨ps, hW, hcase⟩ := rTail_walk hb ho hpb hclb hrt
@@ -752,17 +758,17 @@ theorem Inv_append {box : Bound α} (hb : BoxOK box) {input : List (List (Pt α)
     (hcf : st.current.head? = some cf) (hcl : st.current.getLast? = some cl)
     (hrt : (ep.point = cl ∧ rTail = []) ∨
            (ep.point ≠ cl ∧ ∃ r, aroundBound box [ep.point, cl] o = .ok r ∧ rTail = r.drop 2))
-    (hne : ep.point ≠ cf) (hpiece : input[ep.index]? = some piece) (hoe : ep.otherEnd < st.points.length) :
+    (hne : ep.index ≠ st.first ∨ ep.point ≠ cf) (hpiece : input[ep.index]? = some piece) (hoe : ep.otherEnd < st.points.length) :
     Inv box input n { points := (st.points.set (i % n) (usedT ep)).modify ep.otherEnd usedT,
                       current := st.current ++ (if rTail.isEmpty then [] else rTail.dropLast) ++ piece,
-                      result := st.result } (ep.otherEnd + 1) := by
+                      result := st.result, first := st.first } (ep.otherEnd + 1) := by
   obtain ⟨hstat, hn, hbd, ⟨U, Wk, hE⟩, hfl⟩ := hI
   rw [set_modify_eq_markL hep]
   have hflN : FlagsN input n st i := by
     rcases hfl with ⟨h, _⟩ | h
     · rw [h] at hcf; cases hcf
     · exact h
-  obtain ⟨m0, k0, e0, cf', ls0, hcf', hls0, hh0, hik, hk2, hk0, hm0, hst0, hu0, hend, hoth⟩ := hflN
+  obtain ⟨m0, k0, e0, cf', ls0, hcf', hls0, hh0, hik, hk2, hk0, hm0, hst0, hu0, hend, hoth, hfst⟩ := hflN
   rw [hcf] at hcf'; cases hcf'
   have hn0 : 0 < n := by omega
   obtain ⟨ls, hls, hif⟩ := hstat.piece _ ep hep
@@ -770,8 +776,10 @@ theorem Inv_append {box : Bound α} (hb : BoxOK box) {input : List (List (Pt α)
   rw [if_pos hs] at hif
   have hidx : ep.index ≠ m0 := by
     intro hh
-    rw [hh, hls0] at hpiece; cases hpiece
-    rw [hh0] at hif; cases hif; exact hne rfl
+    rcases hne with hne | hne
+    · exact hne (hh.trans hfst.symm)
+    · rw [hh, hls0] at hpiece; cases hpiece
+      rw [hh0] at hif; cases hif; exact hne rfl
   have hpk := hp piece (List.mem_of_getElem? hpiece)
   have hpb : OnBoundary box ep.point := hpk.2.1 _ hif
   have hclb := hbd cl hcl
@@ -852,7 +860,7 @@ theorem Inv_append {box : Bound α} (hb : BoxOK box) {input : List (List (Pt α)
     have hk0n : k0 % n < n := Nat.mod_lt _ hn0
     have hm0' : e0.index ≠ ep.index := by rw [hm0]; exact fun h => hidx h.symm
     refine ⟨m0, (if ep.otherEnd + 1 ≤ k0 % n then k0 % n else k0 % n + n), mkU [i % n, ep.otherEnd] (k0 % n) e0, cf,
-      ls0, ?_, hls0, hh0, ?_, ?_, ?_, hm0, hst0, ?_, ?_, ?_⟩
+      ls0, ?_, hls0, hh0, ?_, ?_, ?_, hm0, hst0, ?_, ?_, ?_, hfst⟩
     · rw [List.append_assoc, List.head?_append, hcf, Option.some_or]
     · split_ifs <;> omega
     · split_ifs <;> omega
@@ -879,16 +887,16 @@ theorem Inv_append {box : Bound α} (hb : BoxOK box) {input : List (List (Pt α)
           mkU_used_of_not_mem _ (hnpos _ e1' hp1 (by rw [hp3]; exact hi2)), hq2]
 
 theorem Inv_step {box : Bound α} (hb : BoxOK box) {input : List (List (Pt α))}
-    (hp : ∀ ls ∈ input, PieceOK box ls) (hnd : (input.map List.head?).Nodup) {o : Int} (ho : o = CW ∨ o = CCW)
+    (hp : ∀ ls ∈ input, PieceOK box ls) {o : Int} (ho : o = CW ∨ o = CCW)
     {n : Nat} : ∀ st i st' i', Inv box input n st i → wrapStep box input o n st i = .ok (.inr (st', i')) →
       Inv box input n st' i' := by
   intro st i st' i' hI hx
   rcases wrapStep_cases2 hx with ⟨_, hr⟩ | ⟨hi, ep, hep, ⟨hr, hreason⟩ | ⟨hu, hs, hcur, piece, hpiece, hr⟩ |
-    ⟨hu, hs, cf, cl, rTail, hcf, hcl, hrt, ⟨hpf, hr⟩ | ⟨hne, piece, hpiece, hoe, hr⟩⟩⟩
+    ⟨hu, hs, cf, cl, rTail, hcf, hcl, hrt, ⟨hfirst, hpf, hr⟩ | ⟨hne, piece, hpiece, hoe, hr⟩⟩⟩
   · cases hr
   · cases hr; exact Inv_skip hI hep hreason
   · cases hr; exact Inv_take hp hI hi hep hu hs hcur hpiece
-  · cases hr; exact Inv_complete hb ho hp hnd hI hep hu hs hcf hcl hrt hpf
+  · cases hr; exact Inv_complete hb ho hp hI hep hfirst hu hs hcf hcl hrt hpf
   · cases hr; exact Inv_append hb ho hp hI hi hep hu hs hcf hcl hrt hne hpiece hoe
 
 /-! ### (5) the theorem -/
@@ -904,11 +912,13 @@ theorem edgeSum_range (input : List (List (Pt α))) :
   conv_rhs => rw [← h]
   rw [List.flatMap_map]
 
-/-- If the pieces have pairwise distinct start points, the stitching loop uses every piece exactly once:
-    the edges of the returned rings are the edges of all the pieces plus connecting walk edges, each
-    of which lies along the box boundary (both ends in one closed outer half-plane). -/
-theorem smartWrap_edges (box : Bound α) (hb : BoxOK box) (input : List (List (Pt α))) (o : Int)
-    (ho : o = CW ∨ o = CCW) (hp : ∀ ls ∈ input, PieceOK box ls) (hnd : (input.map List.head?).Nodup)
+/-- The stitching loop uses every piece exactly once: the edges of the returned rings are the edges of
+    all the pieces plus connecting walk edges, each of which lies along the box boundary (both ends in
+    one closed outer half-plane).  Since fix C16-5 (`loop complete` is decided by the INDEX of the piece
+    the ring began with, not by comparing points) this needs no hypothesis on the start points: two
+    pieces may start in one point (rings touching on the box side). -/
+theorem smartWrap_edges_any (box : Bound α) (hb : BoxOK box) (input : List (List (Pt α))) (o : Int)
+    (ho : o = CW ∨ o = CCW) (hp : ∀ ls ∈ input, PieceOK box ls)
     (out : List (List (List (Pt α)))) (h : smartWrap box input o = .ok out) :
     ∃ Wk : List (Pt α × Pt α), (∀ se ∈ Wk, Clip.C16R.SameSide box se.1 se.2) ∧
       (out.flatMap (fun pg => pg.flatMap Contains.chain)).Perm (input.flatMap Contains.chain ++ Wk) := by
@@ -925,7 +935,7 @@ theorem smartWrap_edges (box : Bound α) (hb : BoxOK box) (input : List (List (P
       obtain ⟨e', hp1, _⟩ := hstat.partner hk
       exact ⟨e', hp1, by rw [hun e (List.mem_of_getElem? hk), hun e' (List.mem_of_getElem? hp1)]⟩
   obtain ⟨stf, jf, hI, hjf, rfl⟩ :=
-    wrapLoop_inv2 (Inv box input sorted.length) (Inv_step hb hp hnd ho) _ _ _ _ h h0
+    wrapLoop_inv2 (Inv box input sorted.length) (Inv_step hb hp ho) _ _ _ _ h h0
   obtain ⟨hstat', hn', _, ⟨U, Wk, hE⟩, hfl⟩ := hI
   rcases hfl with ⟨hc, _, hs1⟩ | ⟨m0, k0, _, _, _, _, _, _, hik, hk2, _⟩
   · refine ⟨Wk, hE.wk, ?_⟩
@@ -948,5 +958,13 @@ theorem smartWrap_edges (box : Bound α) (hb : BoxOK box) (input : List (List (P
     rw [← edgeSum_range]
     exact hU.flatMap_right _
   · omega
+
+/-- the statement as it stood before fix C16-5 (pieces with pairwise distinct start points) -/
+theorem smartWrap_edges (box : Bound α) (hb : BoxOK box) (input : List (List (Pt α))) (o : Int)
+    (ho : o = CW ∨ o = CCW) (hp : ∀ ls ∈ input, PieceOK box ls) (_hnd : (input.map List.head?).Nodup)
+    (out : List (List (List (Pt α)))) (h : smartWrap box input o = .ok out) :
+    ∃ Wk : List (Pt α × Pt α), (∀ se ∈ Wk, Clip.C16R.SameSide box se.1 se.2) ∧
+      (out.flatMap (fun pg => pg.flatMap Contains.chain)).Perm (input.flatMap Contains.chain ++ Wk) :=
+  smartWrap_edges_any box hb input o ho hp out h
 
 end Orb.SmartClip
